@@ -987,7 +987,45 @@ func (w *svWorkload) Next(block int) []rig.Tx {
 			}
 		}
 	}
+	if (!w.cfg.Scripted || w.n >= svPrologueLen) && w.n%37 == 20 {
+		txs = append(txs, w.coincident(v)...)
+	}
 	w.n++
+	return txs
+}
+
+// coincident makes the poor consumer open three repeated contexts in one block, with the same provider, timeout and
+// frequency, while holding two and a half times the provider's price: from then on three new batches of one consumer
+// fall due at the same heights and the consumer can pay for some of them only (which ones is decided by the order in
+// which the end blocker takes them).
+func (w *svWorkload) coincident(v *svSnap) []rig.Tx {
+	base := w.r.K.Service.BaseDenom(w.r.Ctx())
+	var pick *svtypes.ServiceBinding
+	var price sdkmath.Int
+	for _, b := range w.myBindings(v) {
+		pr := v.RawPrice[svBKey(b.ServiceName, b.Provider)]
+		if b.Available && len(pr) == 1 && pr[0].Denom == base && pr[0].Amount.IsPositive() && pr[0].Amount.LT(sdkmath.NewInt(1_000_000_000)) && w.byAddr[b.Provider] != nil {
+			bb := b
+			pick, price = &bb, pr[0].Amount
+			break
+		}
+	}
+	if pick == nil {
+		return nil
+	}
+	keep := price.MulRaw(5).QuoRaw(2)
+	bal := v.Bal[w.poor.Addr.String()].AmountOf(base)
+	var txs []rig.Tx
+	switch {
+	case bal.GT(keep):
+		txs = append(txs, w.r.Mk(w.poor, &svTag{Kind: "send", Note: "drain"}, banktypes.NewMsgSend(w.poor.Addr, w.sink, sdk.NewCoins(sdk.NewCoin(base, bal.Sub(keep))))))
+	case bal.LT(keep):
+		txs = append(txs, w.r.Mk(w.consumers[0], &svTag{Kind: "send", Note: "top-up"}, banktypes.NewMsgSend(w.consumers[0].Addr, w.poor.Addr, sdk.NewCoins(sdk.NewCoin(base, keep.Sub(bal))))))
+	}
+	for i := 0; i < 3; i++ {
+		txs = append(txs, w.txCall(w.poor, pick.ServiceName, []*rig.Account{w.byAddr[pick.Provider]}, w.hugeCap(), 2, true, 3, -1, "coincident"))
+	}
+	w.run.Count("coincident-contexts-opened", 3)
 	return txs
 }
 
@@ -1639,7 +1677,7 @@ func runService(run *ev.Run, c int, mode string) {
 	for _, dn := range []string{rig.BondDenom, "tka", "tkb"} {
 		bal = bal.Add(sdk.NewCoin(dn, toInt(pow2(120))))
 	}
-	opts := rig.Options{Seed: fmt.Sprintf("sv-%d-%d", run.Seed, c), NumAccounts: 11, Balances: bal, InflationOff: true, GenesisMutator: w.Genesis}
+	opts := rig.Options{Seed: fmt.Sprintf("sv-%d-%d", run.Seed, c), NumAccounts: 11, Balances: bal, InflationOff: true, GenesisMutator: w.Genesis, InitialHeight: boundaryHeight(c / 3)}
 	if cfg.Oracle {
 		// the oracle's price service compares the feed value's block time with the host clock (lead D1); a chain clock
 		// ahead of every plausible host clock keeps the feed "fresh" under that code, and block-time steps below keep
